@@ -721,6 +721,27 @@ def r06f(ctx, classes):
             ctx.ok("R06f", ci.qual, "memoised through lazy_property only")
 
 
+def r06g(ctx, classes):
+    ctx.rule("R06g", "a lazy class that overrides __setattr__ hands every assignment to LazyMutableClass.__setattr__ (super().__setattr__), which is what clears the cache: "
+             "no path stores through object.__setattr__ / __dict__ instead", expected=1, kind="N")
+    n = 0
+    for ci in classes + [ctx.repo.cls("pyrex.internal_functions.LazyMutableClass")]:
+        for st in ci.node.body:
+            if isinstance(st, ast.FunctionDef) and st.name == "__setattr__":
+                n += 1
+                raw = [c for c in ast.walk(st) if isinstance(c, ast.Call) and ast.unparse(c.func) in ("object.__setattr__", "self.__dict__.__setitem__", "self.__dict__.update")]
+                raw += [s_ for s_ in ast.walk(st) if isinstance(s_, ast.Assign) and any(isinstance(t, ast.Subscript) and ast.unparse(t.value) == "self.__dict__" for t in s_.targets)]
+                if ci.name == "LazyMutableClass":
+                    ctx.ok("R06g", ci.qual + ".__setattr__", "the base hook itself")
+                    continue
+                cnt = paths.seq(st.body, lambda x: isinstance(x, ast.Call) and ast.unparse(x.func) == "super().__setattr__")
+                normal = [v for k, v in cnt.items() if k in ("fall", "return")]
+                ctx.check(not raw and bool(normal) and all(v[0] >= 1 for v in normal), "R06g", ci.qual + ".__setattr__", "every normal path calls super().__setattr__; nothing is stored behind its back",
+                          f"paths={cnt}; raw stores={[ast.unparse(x)[:60] for x in raw]}", key_detail="setattr hook", loc=ctx.loc(ci.module, st))
+    if n == 0:
+        ctx.unknown("R06g", "pyrex.internal_functions.LazyMutableClass", "__setattr__ hook found", "")
+
+
 def run(ctx):
     classes = lazy_classes(ctx.repo)
     if ctx.tier == "quick":
@@ -731,10 +752,14 @@ def run(ctx):
     ctx.guard(r06d)
     ctx.guard(r06e, classes)
     ctx.guard(r06f, classes)
+    ctx.guard(r06g, classes)
 
 
 SELFTEST = {
     "faults": [
+        {"name": "endpoint assignment stored behind the cache hook", "file": "pyrex/ray_tracing.py", "occurrence": 2, "old": "    @property\n    def z_turn_proximity(self):",
+         "new": "    def __setattr__(self, name, value):\n        if name in ('from_point', 'to_point'):\n            object.__setattr__(self, name, np.array(value))\n        else:\n            super().__setattr__(name, value)\n\n    @property\n    def z_turn_proximity(self):",
+         "rule": "R06g"},
         {"name": "a value cached with functools.cached_property", "file": "pyrex/ray_tracing.py", "old": "    @lazy_property\n    def z_turn(self):", "new": "    @functools.cached_property\n    def z_turn(self):",
          "rule": "R06f"},
         {"name": "skip the clear when the same object is re-assigned", "file": "pyrex/internal_functions.py",
